@@ -342,3 +342,29 @@ func CanonRef(r string) string {
 	}
 	return ref.String()
 }
+
+// WorldOf returns the world an operation refers to: 0 is Scenario.World, i>0 is Worlds[i-1]
+// (scenarios without World use Worlds[i]).
+func (s *Scenario) WorldOf(i int) *model.World {
+	if s.World != nil {
+		if i == 0 {
+			return s.World
+		}
+		if i-1 < len(s.Worlds) {
+			return s.Worlds[i-1]
+		}
+		return s.World
+	}
+	if i < len(s.Worlds) {
+		return s.Worlds[i]
+	}
+	return nil
+}
+
+// RandBase spells the root location of a world either as a plain path or as the canonical URL.
+func RandBase(r *sim.RNG, w *model.World) string {
+	if r.Bool(0.5) {
+		return w.Root
+	}
+	return ""
+}
